@@ -36,7 +36,8 @@ class C14(Prop):
     partial_note = ("allocation is proved as a count of elements/octets and time as a count of parseField entries; real heap bytes and "
                     "wall time are runtime behaviour: measured per call (evidence.measurements), not proved")
     trusted_base = ["schema translator (go/ast over ngapType/*.go) and its re-implementation of aper.parseFieldParameters"]
-    MAX_ALLOC = 64 << 20
+    MAX_ALLOC = 64 << 20           # cumulative allocation while decoding an input of at most 4 KiB
+    MAX_ALLOC_PER_OCTET = 4 << 10  # … per input octet for longer inputs (measured: about 1.9 KiB per octet for 16 384 minimal IEs)
     MAX_NS = 2_000_000_000
 
     def key(self, op, impl, model, spec):
@@ -64,6 +65,11 @@ class C14(Prop):
             ctx.violations.append(dict(kind="violation", key="decode-alloc", domain="aper-dec", op="(see measurements)",
                                        impl="allocated %d bytes for an input of %d octets" % (a["value"], a.get("input_len", -1)),
                                        model="", spec="", why="allocation above 64 MiB for an input of at most 4 KiB"))
+        r = ctx.stats.get("decode_max_alloc_per_octet")
+        if r and r["value"] > self.MAX_ALLOC_PER_OCTET:
+            ctx.violations.append(dict(kind="violation", key="decode-alloc-per-octet", domain="aper-dec", op="(see measurements)",
+                                       impl="allocated %d bytes per input octet for an input of %d octets" % (r["value"], r.get("input_len", -1)),
+                                       model="", spec="", why="cumulative allocation above 4 KiB per input octet for an input longer than 4 KiB"))
         if n and n["value"] > self.MAX_NS:
             ctx.violations.append(dict(kind="violation", key="decode-time", domain="aper-dec", op="(see measurements)",
                                        impl="took %d ns for an input of %d octets" % (n["value"], n.get("input_len", -1)),
